@@ -145,6 +145,7 @@ static void handle(int argc, char **argv) {
     if (argc < 4) { OUT("bad-op"); return; }
     route = argv[1];
     mode = atoi(argv[2]);
+    while (pos < argc && argv[pos][0] == '@') pos++;           /* key normalisation pairs: for the model only */
     v = build_value(argv, argc, &pos, &brc);
     if (v == NULL || pos != argc) { if (v) cif_value_free(v); OUT("bad-op"); return; }
     m = open_memstream(&otext, &osz); fdump_pub(m, v); fclose(m);
